@@ -84,25 +84,42 @@ def lint_coq_sources(paths):
     return bad
 
 
-def ensure_theories():
-    """Build coq/theories if some .vo is missing or stale (normally done by setup_cmd)."""
+def theory_targets(texts):
+    """.vo targets under coq/theories required by `From Tangelo Require Import A.B C.D.` lines."""
+    t = set()
+    for txt in texts:
+        for m in re.finditer(r"From\s+Tangelo\s+Require\s+(?:Import|Export)\s+([^.]*(?:\.[A-Za-z_][\w.]*)*)\s*\.\s", strip_coq_comments(txt) + " "):
+            for name in m.group(1).split():
+                rel = name.replace(".", "/") + ".v"
+                if (THEORIES / rel).exists():
+                    t.add("theories/" + rel + "o")
+    return sorted(t)
+
+
+def ensure_theories(targets=None):
+    """Build the needed coq/theories/*.vo (all of them when targets is None) with make, under a lock.
+    Only the requested files and their dependencies are compiled, so a file being edited elsewhere in
+    the tree does not disturb a check that does not depend on it."""
     import fcntl
-    lock = open(VERIF / ".work" / ".build.lock", "w") if (VERIF / ".work").exists() else None
-    if lock is None:
-        (VERIF / ".work").mkdir(parents=True, exist_ok=True)
-        lock = open(VERIF / ".work" / ".build.lock", "w")
+    (VERIF / ".work").mkdir(parents=True, exist_ok=True)
+    lock = open(VERIF / ".work" / ".build.lock", "w")
     fcntl.flock(lock, fcntl.LOCK_EX)
     try:
-        stale = False
-        for v in THEORIES.rglob("*.v"):
-            vo = v.with_suffix(".vo")
-            if not vo.exists() or vo.stat().st_mtime < v.stat().st_mtime:
-                stale = True
-                break
-        if stale:
-            rc, out = sh(["bash", str(VERIF / "setup.sh")], timeout=3000, cwd=str(VERIF))
+        vfiles = sorted(str(p.relative_to(COQ)) for p in THEORIES.rglob("*.v"))
+        proj = "-Q theories Tangelo\n" + "\n".join(vfiles) + "\n"
+        pf = COQ / "_CoqProject"
+        if not pf.exists() or pf.read_text() != proj or not (COQ / "Makefile.coq").exists():
+            pf.write_text(proj)
+            rc, out = sh(["coq_makefile", "-f", "_CoqProject", "-o", "Makefile.coq"], cwd=str(COQ))
             if rc != 0:
-                raise RuntimeError("building coq/theories failed:\n" + out[-4000:])
+                raise RuntimeError("coq_makefile failed:\n" + out[-2000:])
+        if targets is None:
+            targets = [v + "o" for v in vfiles]
+        if not targets:
+            return
+        rc, out = sh(["make", "-f", "Makefile.coq", "-j8"] + list(targets), timeout=3000, cwd=str(COQ))
+        if rc != 0:
+            raise RuntimeError("building %s failed:\n%s" % (" ".join(targets), out[-4000:]))
     finally:
         fcntl.flock(lock, fcntl.LOCK_UN)
         lock.close()
@@ -159,14 +176,38 @@ class Check:
         rc, out = sh(cmd, timeout=timeout, cwd=str(self.work))
         return rc, out, " ".join(cmd)
 
+    def _dep_sources(self, targets):
+        """Source files of the targets and of everything they depend on (from coqdep's .d file)."""
+        out = set()
+        dfile = COQ / ".Makefile.coq.d"
+        deps = {}
+        if dfile.exists():
+            for line in dfile.read_text().splitlines():
+                if ":" in line:
+                    lhs, rhs = line.split(":", 1)
+                    for t in lhs.split():
+                        if t.endswith(".vo"):
+                            deps[t] = [r for r in rhs.split() if r.endswith(".vo") and r.startswith("theories/")]
+        todo = list(targets)
+        while todo:
+            t = todo.pop()
+            if t in out:
+                continue
+            out.add(t)
+            todo.extend(deps.get(t, []))
+        return [COQ / (t[:-1]) for t in sorted(out) if (COQ / t[:-1]).exists()]
+
     # ------------------------------------------------------------------ proof step
     def prove(self, props_file=None, timeout=900, allowed=None):
         """Compile generated files, then coq/props/<id>.v; parse Print Assumptions."""
-        ensure_theories()
         allowed = ALLOWED_AXIOMS if allowed is None else allowed
         res = ProofResult()
         props_src = Path(props_file) if props_file else COQ / "props" / (self.pid + ".v")
-        lint = lint_coq_sources(list(THEORIES.rglob("*.v")) + [props_src] + self.gen_files)
+        texts = [props_src.read_text()] + [g.read_text() for g in self.gen_files]
+        targets = theory_targets(texts)
+        ensure_theories(targets)
+        deps = self._dep_sources(targets)
+        lint = lint_coq_sources(deps + [props_src] + self.gen_files)
         if lint:
             res.log = "forbidden constructs:\n" + "\n".join(lint)
             res.failed = "lint"
@@ -231,9 +272,9 @@ class Check:
     def coq_eval(self, name, preamble, exprs, shard=300, timeout=900, jobs=8):
         """Evaluate Coq expressions of type string with vm_compute; returns the list of strings.
         `preamble` holds Require/Import lines and helper definitions."""
-        ensure_theories()
         if not exprs:
             return []
+        ensure_theories(theory_targets([preamble]))
         d = self.work / "eval"
         d.mkdir(exist_ok=True)
         shards = [exprs[i:i + shard] for i in range(0, len(exprs), shard)]
@@ -299,6 +340,8 @@ class Check:
     # ------------------------------------------------------------------ finish
     def finish(self, level="proof", extra_cov=None):
         known = json.loads(KNOWN_FILE.read_text()) if KNOWN_FILE.exists() else {"findings": [], "fixed": []}
+        for extra in sorted((VERIF / "known_findings.d").glob("*.json")) if (VERIF / "known_findings.d").exists() else []:
+            known.setdefault("findings", []).extend(json.loads(extra.read_text()).get("findings", []))
         known_sigs = {f["signature"]: f for f in known.get("findings", []) if f.get("property") == self.pid}
         # an input-less violation (broken proof / correspondence) is dropped when the search found a
         # concrete failing input that explains it; it is reported otherwise
